@@ -24,7 +24,7 @@ NOT_APPLICABLE = {
     'C31': "frame condition over the entire framework along API-call histories; per-function frames are proved where they live (C12, C33)",
     'C34': "derivatives come from jax AD / generated code; nothing to put under contract",
 }
-for _p in ['C02','C03','C04','C05','C06','C07','C08','C11','C12','C13','C15','C16','C21','C23','C25','C26','C27','C29','C30','C32']:
+for _p in ['C02','C03','C04','C05','C06','C07','C08','C11','C12','C13','C15','C16','C21','C23','C25','C26','C29','C30','C32']:
     NOT_APPLICABLE.setdefault(_p, NA_DEFAULT)
 
 CLAIMED = {
@@ -53,4 +53,9 @@ CLAIMED = {
         design_ref="DESIGN.md section 3 C22",
         note="Trusted: pyvc and its NumPy model (np.where index sets, masks), z3; reals instead of floats. Assumed: OptimizerVector.update_from_model(driver_scaling=False) fills the constraint vector with model values. Not covered: _compute_con_viol's concatenation order, find_feasible's use of the result.",
         technique="deductive verification: sidecar contract + symbolic execution of real source -> VCs -> z3; canaries + native sampling on a real Problem/Driver"),
+    'C27': dict(
+        text="Proof over uninterpreted declaration predicates (value in values, isinstance(value, types), comparisons with lower/upper, a check_valid callback that may reject, allow_none) for every combination of declared constraints that OptionsDictionary._assert_valid raises exactly when the value violates the declaration, that __setitem__ succeeds exactly when the option is declared, writable and valid through a deprecation alias, stores exactly the given value, and on every rejecting path leaves value and has_been_set untouched (frame on exceptional exit), and that temporary() restores every option and its cache on normal AND exceptional exit of an arbitrary body, including a rejected later kwarg. The last obligation failed on the original tree; repaired in /repo (fix: commit).",
+        design_ref="DESIGN.md section 3 C27",
+        note="Trusted: pyvc, z3. Values are opaque: membership, isinstance and ordering are uninterpreted predicates (sound for any Python objects with consistent comparison). Not covered: types=list element-wise branch, set_function, declare()'s own checks, update/undeclare; the stored value is assumed to satisfy its declaration on entry to temporary() (data-structure invariant).",
+        technique="deductive verification: sidecar contracts + symbolic execution of real source (incl. contextmanager generator semantics) -> VCs -> z3 (UF); canaries + native sampling on real OptionsDictionary"),
 }
